@@ -537,6 +537,7 @@ func main() {
 	streamSweep(env, rep, rng, encs)
 	hostileSweep(env, rep, rng, encs, self)
 	nestedSweep(env, rep, rng, self)
+	retrySweep(env, rep, rng, encs)
 	witnesses(env, rep, self)
 	olderVersion(env, rep, rng)
 	rep.Write(env.Out)
@@ -1024,6 +1025,11 @@ func runReplay(env *vh.Env, rep *vh.Report, self string) {
 		switch c.Mode {
 		case "stream":
 			replayStream(rep, c)
+		case "retry":
+			retryOne(rep, lazyCase{typ: c.Typ, outer: vh.UnHex(c.Hex), what: c.What})
+		case "reuse":
+			b := vh.UnHex(c.Hex)
+			reuseSweep(env, rep, vh.NewRng(env.Seed), []enc{{c.Kind, c.Typ, b}, {c.Kind, c.Typ, b}})
 		case "equal":
 			b := vh.UnHex(c.Hex)
 			var re []byte
